@@ -416,3 +416,8 @@ def check(run):
     r4_version(run)
     r5_handlers(run)
     r6_every_accept_passed_verify(run)
+    # request side: what _parse_request hands back is what verify() (the
+    # Version / IssueInstant / Destination check) returned (C10.R1)
+    from . import c10
+    from .c02 import _as
+    _as(run, "R7", c10.r1_pipeline, "R1")
